@@ -37,7 +37,8 @@ static std::vector<std::vector<LD>> Dmat(const std::vector<double> &k, int o, in
 
 struct Problem {
 	int nd; std::vector<uint32_t> ord, por; std::vector<std::vector<double>> kn, co; std::vector<int> n; std::vector<double> lam;
-	std::vector<std::vector<unsigned>> idx; std::vector<double> y, w; size_t ntot; std::string kind; bool scalar_args = false;
+	std::vector<std::vector<unsigned>> idx; std::vector<double> y, w; size_t ntot; std::string kind; int shared_form = 0; // 0: smoothing and penalty order per dimension, 1: both as one shared entry, 2: only the smoothing shared, 3: only the penalty order shared
+	bool shared_lam() const { return shared_form == 1 || shared_form == 2; } bool shared_por() const { return shared_form == 1 || shared_form == 3; }
 };
 static std::string prob_brief(const Problem &p) {
 	std::string s = "{\"ndim\":" + std::to_string(p.nd) + ",\"order\":" + jarr(p.ord) + ",\"penaltyOrder\":" + jarr(p.por) + ",\"smoothing\":" + jarrd(p.lam) + ",\"ncoef\":" + std::to_string(p.ntot) + ",\"ndata\":" + std::to_string(p.idx.size()) + ",\"kind\":" + jstr(p.kind) + "}";
@@ -47,7 +48,7 @@ static Problem gen_problem(Rng &r, int maxdim, size_t maxcoef, bool mono) {
 	Problem p;
 	for (int attempt = 0; attempt < 100; attempt++) {
 		p = Problem(); p.nd = r.range(1, maxdim); p.ntot = 1; size_t npt = 1; bool ok = true;
-		p.scalar_args = r.coin(0.3);
+		{ double u = r.U(); p.shared_form = u < 0.2 ? 1 : u < 0.35 ? 2 : u < 0.5 ? 3 : 0; }
 		for (int d = 0; d < p.nd; d++) {
 			uint32_t o = mono ? (uint32_t)r.range(1, 4) : (uint32_t)r.below(5);
 			uint32_t po = (uint32_t)r.below(o + 1);
@@ -64,7 +65,8 @@ static Problem gen_problem(Rng &r, int maxdim, size_t maxcoef, bool mono) {
 			p.lam.push_back(r.coin(0.25) ? 0.0 : std::pow(10.0, (double)r.range(-6, 6)));
 		}
 		if (!ok) continue;
-		if (p.scalar_args) { for (int d = 1; d < p.nd; d++) { p.lam[d] = p.lam[0]; p.por[d] = std::min(p.por[0], p.ord[d]); } uint32_t m = p.por[0]; for (int d = 0; d < p.nd; d++) m = std::min(m, p.ord[d]); for (auto &q : p.por) q = m; }
+		if (p.shared_lam()) for (int d = 1; d < p.nd; d++) p.lam[d] = p.lam[0];
+		if (p.shared_por()) { uint32_t m = p.por[0]; for (int d = 0; d < p.nd; d++) m = std::min(m, p.ord[d]); for (auto &q : p.por) q = m; }
 		bool sparse = r.coin(0.5); double keep = sparse ? 0.3 + 0.4 * r.U() : 1.0;
 		std::vector<unsigned> I(p.nd, 0);
 		for (size_t lin = 0; lin < npt; lin++) { size_t q = lin; for (int d = p.nd - 1; d >= 0; d--) { I[d] = (unsigned)(q % p.co[d].size()); q /= p.co[d].size(); } if (sparse && !r.coin(keep)) continue; p.idx.push_back(I); }
@@ -180,7 +182,7 @@ static void run_C09(const Args &a, long cs) {
 	count("problems-well-posed");
 	uint64_t h = hash_mix(9, p.ntot); for (double v : p.y) h = hash_d(h, v); for (int d = 0; d < p.nd; d++) for (double k : p.kn[d]) h = hash_d(h, k);
 	std::vector<double> lam = p.lam; std::vector<uint32_t> por = p.por;
-	if (p.scalar_args) { lam.resize(1); por.resize(1); count("problems-with-scalar-smoothing-args"); }
+	if (p.shared_lam()) lam.resize(1); if (p.shared_por()) por.resize(1); count("argument-form:" + std::string(p.shared_form == 0 ? "per-dimension" : p.shared_form == 1 ? "both-shared" : p.shared_form == 2 ? "smoothing-shared,penalty-order-per-dimension" : "smoothing-per-dimension,penalty-order-shared"));
 	for (int variant = 0; variant < 3; variant++) {
 		const char *vn[] = {"fit", "fit(permuted+zero-weight-entries)", "C:splinetable_glamfit"};
 		Problem q = p; std::vector<size_t> perm(p.idx.size()); for (size_t i = 0; i < perm.size(); i++) perm[i] = i;
@@ -271,10 +273,10 @@ static void run_C10(const Args &a, long cs) {
 		}
 	}
 	static const char *yn[] = {"noisy-increasing", "decreasing", "oscillating", "constant", "gaussian-noise", "from-monotone-spline", "zero-then-rise", "zero-then-rise+1e-10-drift", "all-zero", "tiny-magnitude"};
-	if (ykind >= 6 && ykind <= 7) { for (auto &l : p.lam) l = r.coin(0.7) ? 0.0 : 1e-12; if (p.scalar_args) for (auto &l : p.lam) l = p.lam[0]; } // (a shared smoothing argument applies to every dimension)
+	if (ykind >= 6 && ykind <= 7) { for (auto &l : p.lam) l = r.coin(0.7) ? 0.0 : 1e-12; if (p.shared_lam()) for (auto &l : p.lam) l = p.lam[0]; } // (a shared smoothing argument applies to every dimension)
 	p.kind += std::string("/") + yn[ykind];
 	count("problems"); count("ndim:" + std::to_string(p.nd)); count(std::string("data:") + yn[ykind]); count("monodim:" + std::to_string(monodim)); count("order-along-monodim:" + std::to_string(p.ord[monodim]));
-	std::vector<double> lam = p.lam; std::vector<uint32_t> por = p.por; if (p.scalar_args) { lam.resize(1); por.resize(1); }
+	std::vector<double> lam = p.lam; std::vector<uint32_t> por = p.por; if (p.shared_lam()) lam.resize(1); if (p.shared_por()) por.resize(1);
 	double pivot_T = 0;
 	{ // well-posedness is judged on the system the monotonic fit actually solves: the normal matrix in the T-spline (cumulative) basis along the monotonic dimension
 		Oracle o = build_oracle(p); if (!o.pd || o.pivot_ratio < 1e-9) { count("problems-skipped(normal-matrix-not-positive-definite)"); return; }
